@@ -117,7 +117,7 @@ func init() {
 			{Name: "trie-S2-fragments", Space: "S2^<=3 (quick) / <=4 (thorough)", Share: 4, Run: func(w *fw.W) { w.Trie(alpha.S2, 1, w.Pick(3, 4)) }, Eval: evalC12},
 			{Name: "trie-S3-tokens", Space: "S3^<=3 (quick) / <=4 (thorough)", Share: 4, Run: func(w *fw.W) { w.Trie(alpha.S3, 1, w.Pick(3, 4)) }, Eval: evalC12},
 			{Name: "corpus-cuts", Space: "all fixture cuts", Share: 1, Run: func(w *fw.W) { w.Each(len(cuts), func(i int) { w.Item(cuts[i], "") }) }, Eval: evalC12},
-			{Name: "gates-x-payloads", Space: "17 gate prefixes (which quotes are present, '#' / '--x' seen as-is or inside a quote) x 30 payloads firing in one specific context x 6 tails: every combination of cascade gates", Share: 2,
+			{Name: "gates-x-payloads", Space: "20 gate prefixes (which quotes are present, '#' / '--x' seen as-is or inside a quote) x 30 payloads firing in one specific context x 6 tails: every combination of cascade gates", Share: 2,
 				Run: func(w *fw.W) {
 					var items []string
 					for _, g := range c12Gates {
@@ -153,7 +153,7 @@ func init() {
 	c.Phases = append(c.Phases, sqlExtraPhases(evalC12, true)...)
 }
 
-var c12Gates = []string{"", "x ", "x' ", "x\" ", "x' # ", "x' --y ", "x # ", "x --y ", "x\" # ", "x' #\" ", "x\" #' ", "x' --y\" ", "1 ", "1' ", "1\" ", "x --y/* ", "\xe9' "}
+var c12Gates = []string{"", "x ", "x' ", "x\" ", "x' # ", "x' --y ", "x # ", "x --y ", "x\" # ", "x' #\" ", "x\" #' ", "x' --y\" ", "1 ", "1' ", "1\" ", "x --y/* ", "\xe9' ", "a b c d e f' ", "1 2 3 4 5 6\" ", "a b c d e f # ' "}
 var c12Payloads = []string{"or 1=1", "' or 1=1", "\" or 1=1", "union select 1", "' union select 1", "\" union select 1", "'='", "\"=\"", "1", "; drop table t",
 	"' ; drop table t", "and 1", "' and '1", "\" and \"1", "or 'a'='a", "or \"a\"=\"a", "-1", "+ 1", "' + '", "\" + \"", "into outfile 'x", "' into outfile 'x",
 	"\" into outfile \"x", "/*x*/", "'/*x*/", "sleep(1)", "' or sleep(1) or '", "\" or sleep(1) or \"", "foo", "' foo"}
